@@ -110,7 +110,7 @@ var c14Detectors = map[string]c14Detector{
 
 // syntax that the newest installed engine (Node 22) does not parse yet although it is valid input for esbuild
 var c14NewerThanNode22 = regexp.MustCompile(`\baccessor\b|\busing\b|@|\bimport\s+(defer|source)\b`)
-var c14BigintKey = regexp.MustCompile(`[{,]\s*[0-9]+n\s*:`)
+var c14BigintKey = regexp.MustCompile(`(?:[{,;]|\bstatic|\bget|\bset|\basync)\s*[0-9]+n\s*[:=(]`)
 var c14Asyncish = regexp.MustCompile(`\basync\b`)
 
 type nodeSet struct {
